@@ -141,6 +141,17 @@ CLAIMED = {
             "Trusted: rustc nightly MIR; runtime crate facts extracted with features json,web; quote! expansion "
             "shape (push_ident/push_colon2 sequences).",
             "DESIGN.md §4 C02"),
+    "C06": ("call-graph identity of compile-time and run-time string kernels, dominance/post-dominance typestate of "
+            "cycle detection, cross-stage accept/reject comparison per initializer form, const-fn facts of helpers",
+            "Decides: the const evaluator and the runtime wrappers named by the emitter reach the same four "
+            "incan_core::strings kernels and raise through the same IncanError constructors; cycle detection marks "
+            "InProgress before and Done after every recursive evaluation and reports in the InProgress arm (same for "
+            "the emitter's string folding); every initializer form the evaluator accepts lowers to a form the "
+            "emitter's validator accepts (Index/Slice do not, reproduced); every helper that can be spliced into a "
+            "const initializer is a const fn (none of the 13 numeric/string helpers is, reproduced with rustc E0015). "
+            "Equality of compile-time and run-time VALUES for all expressions is not decided.",
+            "Trusted: rustc nightly MIR and is_const_fn; runtime crate facts (features json,web).",
+            "DESIGN.md §4 C06"),
 }
 
 NOT_APPLICABLE = {
